@@ -1022,6 +1022,8 @@ func callBuiltin(caller *frame, callpos token.Pos, fn *ssa.Builtin, args []value
 		case []value:
 			return len(x)
 		case *omap:
+			// len(m) reads the map header: it races with a concurrent insert/delete
+			caller.i.noteMapAccess(x, false, caller, callpos)
 			return x.len()
 		case symstr:
 			return len(x.b)
